@@ -222,9 +222,10 @@ class Server:
         if os.path.exists(self.log):
             os.remove(self.log)
 
-    def post(self, text, language):
-        data = urllib.parse.urlencode({'text': text, 'language': language}
-                                      ).encode('ascii')
+    def post(self, text, language, extra=None):
+        fields = {'text': text, 'language': language}
+        fields.update(extra or {})
+        data = urllib.parse.urlencode(fields).encode('ascii')
         req = urllib.request.Request('http://localhost:%d/v2/check' % self.port,
                                      data=data)
         with urllib.request.urlopen(req, timeout=60) as f:
@@ -321,6 +322,8 @@ def run(tier, seed, build, res):
     server_language_stream(res)
     server_crlf_stream(res)
     overlap_stream(res)
+    crossline_stream(res)
+    server_options_stream(res)
 
 
 def own_checks_stream(rng, res, n):
@@ -407,6 +410,51 @@ def server_language_stream(res):
                                   for x in r.calls])))
 
 
+def server_options_stream(res):
+    """server emulation: the rule options configured with --lt-options are
+    passed with every submission; a request that carries its own rule fields
+    overrides them for that request only"""
+    tex = 'Ein Satz mit Fehlerr hier.\n'
+    tex2, parts = shellcase.shell_parts(tex, 'de-DE', False, 2)
+    c = {'tex': tex, 'tex2': tex2, 'parts': parts, 'multi': False, 'language': 'de-DE', 'mlc': 2,
+         'answers': [b'{"matches": []}'],
+         'extra_args': ['--lt-options', '~--disable RULE_A --enablecategories CAT_B']}
+    res.count('server-options', ('server-options',), nontrivial=True)
+    srv = Server(c)
+    argvs = []
+    try:
+        seq = [None, {'disabledRules': 'RULE_X'}, None, {'enabledCategories': 'CAT_Y', 'disabledRules': 'RULE_Z'},
+               None]
+        for extra in seq:
+            n0 = len(argvs)
+            r = srv.post(tex2, 'de-DE', extra)
+            argvs.append([x['argv'] for x in r.calls][sum(len(a) for a in argvs[:0]):])
+    except Exception as e:
+        res.failures.append(('c14-srvopts', {'tex': tex}, 'server: %r' % e))
+        return
+    finally:
+        srv.close()
+    # the log is cumulative: the last call of each post is the new one
+    last = [a[-1] if a else None for a in argvs]
+    case = {'tex': tex, 'lt_options': c['extra_args'][1], 'requests': [x or {} for x in seq]}
+
+    def opt(argv, name):
+        return [argv[i + 1] for i, x in enumerate(argv[:-1]) if x == name]
+    if any(a is None for a in last):
+        res.failures.append(('c14-srvopts', case, 'no submission for a request: %r' % last))
+        return
+    if 'RULE_A' not in opt(last[0], '--disable') or 'CAT_B' not in opt(last[0], '--enablecategories'):
+        res.failures.append(('c14-srvopts', case, 'the configured rule options are not passed with the '
+                             'first submission: %r' % last[0]))
+    for k in (2, 4):
+        if last[k] != last[0]:
+            res.failures.append(('c14-srvopts', case, 'request %d (no rule fields) is submitted with %r, '
+                                 'the first request of the same kind with %r' % (k, last[k], last[0])))
+            break
+    if 'RULE_X' not in opt(last[1], '--disable'):
+        res.failures.append(('c14-srvopts', case, 'the rule field of request 1 is not passed: %r' % last[1]))
+
+
 def server_crlf_stream(res):
     """server emulation: the client counts offsets in the text it sent --
     also when that text has CRLF line ends or no final line break"""
@@ -477,6 +525,48 @@ def overlap_stream(res):
         if got != want:
             res.failures.append((key, case, 'overlapping messages are listed under lines %r, '
                                  'the flagged words stand in lines %r' % (got, want)))
+
+
+def crossline_stream(res):
+    """a match that crosses line breaks of the LaTeX file (repeated word at a
+    line end, a phrase over two or three lines): JSON and XML give line and
+    column of its first character and of the character behind its last one;
+    offset and length select the flagged text"""
+    tex = ('Erste Zeile hier und the\nthe zweite Zeile mit a phrase\n  that goes on\nfor three lines. '
+           'Ende\nund Schluss hier.\n')
+    tex2, parts = shellcase.shell_parts(tex, 'en-GB', False, 2)
+    plain, cm = parts[0][1], parts[0][2]
+    spans = ['the\nthe', 'a phrase\n  that goes on\nfor three', 'Ende\nund', 'hier.\n']
+    ms = []
+    for sp in spans:
+        k = plain.find(sp)
+        if k < 0:
+            res.failures.append(('c14-crossline', {'tex': tex}, 'plain text does not hold %r' % sp))
+            return
+        ms.append(shellcase.lt_match(plain, k, len(sp), rule='R%d' % len(ms)))
+    ans = json.dumps({'matches': ms}).encode('utf-8')
+    want = []
+    for sp in spans:
+        b = tex2.find(sp); e = b + len(sp) - 1       # last flagged character
+        fy, fx = tex2.count('\n', 0, b), b - (tex2.rfind('\n', 0, b) + 1)
+        ty, tx = tex2.count('\n', 0, e), e - (tex2.rfind('\n', 0, e) + 1) + 1
+        want.append((b, len(sp), fy, fx, ty, tx))
+    for mode in ('json', 'xml', 'xml-b'):
+        r = shellrun.run_shell({'t.tex': tex}, ['--language', 'en-GB', '--output', mode, 't.tex'],
+                               answers=[ans])
+        res.count('crossline', ('crossline', mode), nontrivial=True)
+        key = 'c14-crossline:%s' % mode
+        case = {'tex': tex, 'mode': mode, 'spans': spans}
+        if r.rc != 0 or r.traceback:
+            res.failures.append((key, case, 'shell failed: rc %d %s' % (r.rc, r.err[-200:])))
+            continue
+        out = r.out.decode('utf-8')
+        got = shellcase.parse_json(out) if mode == 'json' else shellcase.parse_xml(out)
+        exp = want if mode == 'json' else [w[2:] for w in want]
+        if [tuple(g) for g in got] != [tuple(x) for x in exp]:
+            res.failures.append((key, case, 'matches over line breaks are reported at %r, the flagged '
+                                 'texts stand at %r (offset, length, first line/column, line/column '
+                                 'behind the last character)' % (got, exp)))
 
 
 def case_from_json(x):
